@@ -13,7 +13,7 @@ RULE = ('explicit-state BFS over histories of runs on ONE recorder object: 46-le
         'forced-but-ignored / many outputs / skipped class / disabled / failing save / failing extractor / worker-thread interception; '
         'the storage failing to abort a dropped recording / force and discard called with no active recording; replay ok / with outputs / missing id / of a recording not written by a recorder / escaping missing key / playback function raising or interrupted / operation raising); '
         'state = canon(vars(recorder)) + interception flag on main and pool thread; searched to closure, and additionally EVERY history up '
-        'to the depth bound is followed by each of 10 differential probes compared with the same probe on a fresh recorder. Non-trivial = '
+        'to the depth bound is followed by each of 11 differential probes compared with the same probe on a fresh recorder. Non-trivial = '
         'history with at least one abnormal run.')
 ASSUMPTIONS = ['RNG state abstracted to the scripted draw counter (its value matters to C17 only)',
                'the recorder object and the thread-local flag are the only recorder state (module globals are covered by the probes, not the state hash)']
@@ -74,7 +74,7 @@ RUNS = {
     'control-calls-while-idle': ('idle-controls', {'steps': []}),
 }
 NORMAL = ('rec-ok', 'play-ok')
-PROBES = ['rec', 'play', 'rate0', 'thread', 'rec-K0-forced', 'rec-interrupted', 'rec-raise-flex', 'rec-nested', 'play-new-alias', 'play-new-output']
+PROBES = ['rec', 'play', 'rate0', 'thread', 'rec-K0-forced', 'rec-interrupted', 'rec-raise-flex', 'rec-nested', 'play-new-alias', 'play-new-output', 'play-old-alias']
 EXTRA_FUNCS = {'out_nf': {'t': 'out', 'style': 'inst', 'alias': 'on', 'fail': False, 'default': 'v0'}}
 KCLASSES = {'K0': {'rate': 0.0}, 'K0i': {'rate': 0.0, 'ignore': True}, 'Ks': {'skipped': True}}
 
@@ -223,6 +223,9 @@ class World(object):
             return self._rec_summary(r)
         if kind == 'play-new-alias':    # a recording holding the renamed input under its NEW alias
             pl = P.replay(env, self.r2, {'steps': [{'fn': 'in_fb', 'a': ['x1']}, O1]})
+            return ('play', P.obs_canon(pl.obs), type(pl.exc).__name__ if pl.exc else None)
+        if kind == 'play-old-alias':    # a recording holding the renamed input under its OLD alias only: answered through the declared fallback
+            pl = P.replay(env, self.r1, {'steps': [{'fn': 'in_fb', 'a': ['x1']}, O1]})
             return ('play', P.obs_canon(pl.obs), type(pl.exc).__name__ if pl.exc else None)
         if kind == 'play-new-output':   # a recording that HAS a result for the output other recordings lack
             pl = P.replay(env, self.r3, {'steps': [O1, {'fn': 'out_nf', 'a': ['x1']}, O2]})
